@@ -88,7 +88,7 @@ func setCtx(yylex yyLexer, expr ast.Expr, ctx ast.ExprContext) {
 		yylex.(*yyLex).SyntaxErrorf("can't %s %s", action, expr_name)
 		return
 	}
-	setctxer.SetCtx(ctx)
+	setCtxChecked(yylex, setctxer, ctx)
 }
 
 // Set the context for all the items in exprs
